@@ -214,6 +214,15 @@ Definition delivered (k : Z) (acts : list act) : list Z :=
 Definition has_stop (acts : list act) : bool := existsb (fun a => match a with AStop => true | _ => false end) acts.
 Definition has_wmode (acts : list act) : bool := existsb (fun a => match a with ASetWrite WOk => false | ASetWrite _ => true | _ => false end) acts.
 Definition has_wblock (acts : list act) : bool := existsb (fun a => match a with ASetWrite WBlock => true | _ => false end) acts.
+Definition no_wfail (acts : list act) : bool := negb (existsb (fun a => match a with ASetWrite WFail => true | _ => false end) acts).
+(* the shared transport accepts writes after the last action (it does initially) *)
+Fixpoint final_wok (m : bool) (acts : list act) : bool :=
+  match acts with
+  | [] => m
+  | ASetWrite WOk :: t => final_wok true t
+  | ASetWrite _ :: t => final_wok false t
+  | _ :: t => final_wok m t
+  end.
 Definition ncancel (k : Z) (acts : list act) : nat :=
   length (filter (fun a => match a with ACancelKey k' => k' =? k | _ => false end) acts).
 
@@ -366,7 +375,8 @@ Fixpoint ret_step (i : Z) (step : nat) (observed : list dobs) : option (nat * cr
 (* reason 4: every envelope on the shared transport is the unchanged envelope of a Write call that returned
    nil no later than that step, once; per instance the shared order respects the order of non-overlapping
    Write calls, and an earlier accepted envelope is never missing before a later one; while the shared
-   transport accepts writes nothing accepted is missing at the quiescent point *)
+   transport accepts writes nothing accepted is missing at the quiescent point; and once it accepts writes again
+   (no failure, no Stop) nothing accepted on a live connection is missing and no Write is left parked *)
 Definition spec_write (acts : list act) (observed : list dobs) : bool :=
   let cs := calls_of 0 0 acts observed in
   let sh := shw_all observed in
@@ -397,7 +407,26 @@ Definition spec_write (acts : list act) (observed : list dobs) : bool :=
             else true
         end) accepted_w) accepted_w
   (* completeness while the shared transport works *)
-  && (has_wmode acts || forallb (fun w => match w with (c, e, st, rs) => existsb (Z.eqb (eval e)) sh end) accepted_w).
+  && (has_wmode acts || forallb (fun w => match w with (c, e, st, rs) => existsb (Z.eqb (eval e)) sh end) accepted_w)
+  (* completeness once the shared transport works AGAIN: when the transport never failed, the demultiplexer was not
+     stopped and the scenario ends with the transport accepting writes, then at the last quiescent point every envelope
+     whose logical Write returned nil on a connection that was not cancelled is on the shared transport - whatever
+     happened to the caller's context after the Write had returned (seeded/C18_9) - and no Write call on such a
+     connection is still parked (a later Write completes) *)
+  && (negb (no_wfail acts && final_wok true acts && negb (has_stop acts))
+      || (let is := insts_of 0 [] acts observed in
+          let live c := match nth_error is c with
+                        | Some ii => match ii_cancel ii with None => true | Some _ => false end
+                        | None => false end in
+          forallb (fun w => match w with (c, e, st, rs) => negb (live c) || existsb (Z.eqb (eval e)) sh end) accepted_w
+          && match rev observed with
+             | [] => true
+             | o :: _ => forallb (fun i => match nth_error cs (Z.to_nat i) with
+                                           | Some ci => match ci_kind ci with
+                                                        | KWrite _ => negb (live (ci_conn ci))
+                                                        | KRead => true end
+                                           | None => true end) (o_pending o)
+             end)).
 
 (* reason 5: no crash; at a quiescent point no call on a cancelled instance is blocked; a Read issued on an
    instance after the step of its Cancel returns an error, so does a Write unless the shared transport was
